@@ -41,6 +41,7 @@ try:
     rcq, outq = sh(f'./check {prop} --tier quick', cwd='/verif', env=os.environ)
 finally:
     sh('git checkout -- .', cwd='/repo', env=os.environ)
+    sh('git checkout -- evidence', cwd='/verif', env=os.environ)     # evidence of a run on a CHANGED tree is not kept
 lines = [l for l in outq.splitlines() if l.startswith('VIOLATION') or l.startswith(prop)]
 ran.append(f'check: ./check {prop} --tier quick -> exit {rcq}: ' + ' / '.join(lines))
 dest = os.path.join('/verif/seeded', name)
